@@ -58,7 +58,11 @@ class SynthWiki:
             if tgt is None or tgt in seen and tgt != cur and False:
                 break
             if tgt in seen:
-                break  # circular: stop, the page itself (a redirect page) is returned
+                # circular: the hop that closes the circle is reported like every other one (MediaWiki processes the redirect row
+                # of every page it loads), then resolution stops and the redirect page itself is returned
+                if {"from": cur, "to": tgt} not in red:
+                    red.append({"from": cur, "to": tgt})
+                break
             red.append({"from": cur, "to": tgt})
             seen.add(tgt)
             cur = tgt
